@@ -148,6 +148,59 @@ def cases(ctx):
                 c["body"] = c["body"].replace("doc = " + (DOC_DEEP if ('deep' in bid or 'containers' in bid or 'extended' in bid) else DOC),
                                               "doc = " + (DOC2 if not ('deep' in bid or 'containers' in bid or 'extended' in bid) else DOC_DEEP.replace("'true'", "'x'").replace("'3'", "'true'")))
                 out.append(c)
+    # paths bound to a caller-owned raw container (source_data=...), used directly and as a condition argument: the path object, the
+    # bound container and what later calls see after the caller edits that container
+    BOUND = """
+limits = {'max': u2, 'xs': [u3, 5, u1]}
+bound = DataPath('xs', ListValue(), source_data=limits)
+ref = DataPath('max', source_data=limits)
+cond = Value.less_than_or_equal_to(ref) | Value.is_instance(str)
+rule = Rule(('a', 'c', ListValue()), cond)
+sch = Schema([rule, Rule(('l',), Value.length.greater_than(DataPath('xs', source_data=limits).length()))])
+objs = (bound, ref, cond, rule, sch)
+doc = {'a': {'b': u1, 'c': [u2, u3]}, 'l': [u1, {'b': u2}]}
+"""
+    for on, op in enumerate(("bound.get_data()", "bound.get_data(return_paths=True)", "bound.dtype().first().get_data()", "rule.test(doc)", "sch.validate(doc)", "cond.filter(doc['a']['c'])")):
+        body = BOUND + f"""
+snap, lsnap, lids, dsnap = idsnap(*objs), tx(limits), docids(limits), tx(doc)
+{op}
+ok = note('valida objects unchanged', idsnap(*objs) == snap)
+ok = ok and note('the bound container is still the very object the caller bound', bound.source_data is limits and ref.source_data is limits)
+ok = ok and note('bound container and document unchanged', tx(limits) == lsnap and docids(limits) == lids and tx(doc) == dsnap)
+return ok
+"""
+        out.append(mk_case(f"c08.step.bound_paths.{on}", [("u1", "Optional[int]"), ("u2", "int"), ("u3", "int")], body, pre=[f"BU({L}, u1, u2, u3)"], stubs=["sym_repr"]))
+    body = BOUND + """
+r1 = (tx(bound.get_data()), rule.test(doc).is_valid, sch.validate(doc).is_valid)
+limits['max'] = t
+limits['xs'] = [t]
+fresh_rule = Rule(('a', 'c', ListValue()), Value.less_than_or_equal_to(t) | Value.is_instance(str))
+ok = same('after the caller edits the bound container: the path follows it', tx(bound.get_data()), tx([t]))
+ok = ok and same('... and so does the rule that takes it as an argument', summarize_test(rule.test(doc)), summarize_test(fresh_rule.test(doc)))
+ok = ok and same('... and the schema', sch.validate(doc).num_failures, Schema([fresh_rule, Rule(('l',), Value.length.greater_than(1))]).validate(doc).num_failures)
+return ok
+"""
+    out.append(mk_case("c08.seq.bound_paths.edit", [("t", "int"), ("u1", "Optional[int]"), ("u2", "int"), ("u3", "int")], body, pre=[f"BU({L}, t, u1, u2, u3)"], stubs=["sym_repr"]))
+    # two cast rules at different depths over a fan-out whose siblings are a castable string, a container holding a castable string, an
+    # uncastable leaf and a list: nothing of the caller's document ends up inside the validation copy (in either sibling order)
+    for cid, items in (("str_first", "['5', {'n': '7'}, u1, ['9'], {'n': u2}]"), ("container_first", "[{'n': '7'}, '5', ['9'], u1, 'x']")):
+        for on, op in enumerate(("sch.validate(doc)", "r1.test(doc)", "Schema([r3, r2, r1]).validate(doc)")):
+            body = f"""
+r1 = Rule(('items', ListValue()), Value.is_instance(int, dict, list) | Value.equal_to(None), cast={{str: int}})
+r2 = Rule(('items', ListValue(), 'n'), Value.greater_than(t), cast={{str: int}})
+r3 = Rule(('items', ListValue(), 0), Value.is_instance(int), cast={{str: int}})
+sch = Schema([r1, r2, r3])
+objs = (r1, r2, r3, sch)
+doc = {{'items': {items}, 'k': u2}}
+snap, dsnap, dids = idsnap(*objs), tx(doc), docids(doc)
+res = {op}
+ok = note('valida objects unchanged', idsnap(*objs) == snap)
+ok = ok and note("caller's document type-exactly unchanged", tx(doc) == dsnap and docids(doc) == dids)
+if hasattr(res, 'cast_data'):
+    ok = ok and note('the result does not share containers with the document', disjoint_containers(res.cast_data, doc))
+return ok
+"""
+            out.append(mk_case(f"c08.step.casts_two_depths.{cid}.{on}", [("t", "int"), ("u1", "Optional[int]"), ("u2", "int")], body, pre=[f"BU({L}, t, u1, u2)"], stubs=["sym_repr"]))
     out.append(data_step_case("rule", "objs[-1].test(wrapped)", L, "test"))
     out.append(data_step_case("schema", "objs[-1].validate(wrapped)", L, "validate"))
     out.append(data_step_case("schema.cast", "objs[-1].validate(wrapped)", L, "validate.cast"))
